@@ -530,11 +530,20 @@ impl<const N: usize> FInt<N> {
             z[half + n] = carrymid - (carrylo + carryhi);
             // Combine result
             let carry1 = _add_slices(&mut z[0..n], blo);
-            debug_assert!(bhi[0] != !0);
-            bhi[0] += carry1; // cannot overflow
             let carry2 = _add_slices(&mut z[n..], bhi);
+            // Propagate carry1: it cannot be added to bhi[0] first,
+            // the low word of phi*qhi can be 2^64-1.
+            let mut carry = carry1;
+            for zi in z[n..].iter_mut() {
+                if carry == 0 {
+                    break;
+                }
+                let (v, c) = zi.overflowing_add(carry);
+                *zi = v;
+                carry = c as u64;
+            }
             // cannot overflow
-            debug_assert!(carry2 == 0);
+            debug_assert!(carry2 == 0 && carry == 0);
         }
         fn mulbasic(z: &mut [u64], p: &[u64], q: &[u64]) {
             for i in 0..p.len() {
